@@ -450,6 +450,57 @@ func runC05(p *core.Prog, r *core.Report) {
 			}
 		}
 		r.Check(okAdv, "C05.R4", "MoveSegmentCompletedForward", "segmentCompleted advances only over units found Completed", "unguarded advance", p.Pos(mf.Pos()))
+		// whoever completes a unit re-scans the stage's merge frontier: the frontier must be able to jump over units that
+		// are already Completed (full snapshots found in storage ahead of a gap), otherwise nextUnit() designates a
+		// Completed unit forever and the following partials are never merged
+		mfObj := p.FuncObj(pkgStage, "Stages.MoveSegmentCompletedForward")
+		msc := p.FuncObj(pkgStage, "Stages.markSegmentCompleted")
+		for _, name := range []string{"Stages.MergeCompleted", "Stages.FetchStoresState"} {
+			fn := p.Func(pkgStage, name)
+			r.Touch(core.FuncName(fn))
+			marks := core.FindInstrs(fn, core.IsCallTo(msc))
+			ok := len(marks) > 0
+			// marks made for a map stage are exempt: a map stage has no merge frontier (CmdTryMerge ignores stages that are not KindStore)
+			kindF := core.FieldOf(p.Named(pkgStage, "Stage"), "kind")
+			kindMap := p.Const(pkgStage, "KindMap")
+			var mapEdges []core.Edge
+			core.Instrs(fn, func(in ssa.Instruction) {
+				ifi, isIf := in.(*ssa.If)
+				if !isIf {
+					return
+				}
+				onT, _, okc := core.CondRelation(ifi.Cond, func(v ssa.Value) bool { f, _ := core.LoadedField(v); return f == kindF }, func(v ssa.Value) bool {
+					c, isC := v.(*ssa.Const)
+					return isC && c.Value != nil && kindMap != nil && c.Value.ExactString() == kindMap.Val().ExactString()
+				})
+				if okc && (onT == core.OrdEQ) {
+					mapEdges = append(mapEdges, core.Edge{From: ifi.Block(), Idx: 0})
+				} else if okc {
+					mapEdges = append(mapEdges, core.Edge{From: ifi.Block(), Idx: 1})
+				}
+			})
+			for _, m := range marks {
+				m := m
+				exempt := false
+				for _, e := range mapEdges {
+					if _, only := core.OnlyViaEdge(fn, e, func(x ssa.Instruction) bool { return x == m }); only {
+						exempt = true
+					}
+				}
+				if exempt {
+					continue
+				}
+				if _, must := core.MustReachAfter(fn, m, core.IsCallTo(mfObj), func(in ssa.Instruction) bool {
+					if rt, isRet := in.(*ssa.Return); isRet {
+						return len(rt.Results) == 0 || core.ReturnsNilError(rt)
+					}
+					return false
+				}); !must {
+					ok = false
+				}
+			}
+			r.Check(ok, "C05.R4", name+"/advance-frontier", "after a unit is marked Completed (merge finished, full snapshot found) the stage's merge frontier is re-scanned forward over already Completed units before the function returns", "a success path marks a unit Completed without calling MoveSegmentCompletedForward", p.Pos(fn.Pos()))
+		}
 	})
 
 	// ------------------------------------------------------------------ R5
@@ -457,7 +508,7 @@ func runC05(p *core.Prog, r *core.Report) {
 	r.MinInstances("C05.R1", 14)
 	r.MinInstances("C05.R2", 8)
 	r.MinInstances("C05.R3", 3)
-	r.MinInstances("C05.R4", 5)
+	r.MinInstances("C05.R4", 7)
 	r.MinInstances("C05.R5", 10)
 }
 
